@@ -25,6 +25,8 @@ return {
   set = function(t, k, v) t[k] = v end,
   get = function(t, k) return t[k] end,
   rawset = function(t, k, v) rawset(t, k, v) end,
+  -- clears the last list element through table.remove when k is the border, else by assignment
+  clearlast = function(t, k) if k >= 1 and #t == k then table.remove(t) else t[k] = nil end end,
   rawget = function(t, k) return rawget(t, k) end,
   len = function(t) return #t end,
   append = function(t, v) t[#t + 1] = v end,
@@ -58,7 +60,7 @@ func newEnv() *env {
 	L := lua.NewState()
 	e := &env{L: L, h: map[string]lua.LValue{}, refIdx: map[lua.LValue]int{}, consts: map[string]lua.LValue{}}
 	ht := gl.MustLoad(L, helperSrc).(*lua.LTable)
-	for _, n := range []string{"set", "get", "rawset", "rawget", "len", "append", "pop", "tinsert", "tremove", "wnext", "wpairs", "wipairs", "vararg", "ctor1", "id"} {
+	for _, n := range []string{"set", "get", "rawset", "rawget", "len", "append", "pop", "tinsert", "tremove", "clearlast", "wnext", "wpairs", "wipairs", "vararg", "ctor1", "id"} {
 		e.h[n] = ht.RawGetString(n)
 	}
 	for i := 0; i < nRefs; i++ {
@@ -455,6 +457,20 @@ func (r *runner) store(tb *lua.LTable, acc string, k, v V) string {
 	case "lua.setconst":
 		_, o2 := gl.Call(L, e.constFn("set", k), tb, lv)
 		return outcomeErr(o2)
+	case "lua.tremove":
+		// clearing an existing field (the list's last element) through table.remove
+		if !v.isNil() {
+			_, s := r.luaCall("set", tb, lk, lv)
+			return s
+		}
+		_, s := r.luaCall("clearlast", tb, lk)
+		return s
+	case "tb.Remove":
+		if i, ok := intKey(k); ok && i >= 1 && v.isNil() && tb.Len() == i {
+			o = gl.Protect(func() error { tb.Remove(-1); return nil })
+		} else {
+			o = gl.Protect(func() error { tb.RawSet(lk, lv); return nil })
+		}
 	default:
 		return "harness: unknown store accessor " + acc
 	}
